@@ -64,24 +64,61 @@ def ignored_dims_selector(ctx, rep, rule: str) -> None:
     defs = [n for n in A.walk_no_nested(fi.node) if isinstance(n, (ast.Assign, ast.AnnAssign)) and n.value is not None and any(isinstance(t, ast.Name) and t.id == "preconditioned_dims_selector_list" for t in (n.targets if isinstance(n, ast.Assign) else [n.target]))]
     if len(defs) != 1:
         raise AnalysisError(f"{rule}: expected one definition of preconditioned_dims_selector_list in {fi.qual}, found {len(defs)}")
-    expr = ast.parse(A.expanded(fi.node, defs[0].value, displays=True), mode="eval").body
     cfg_param = next((p_ for p_ in fi.params if "preconditioner_config" in p_), "preconditioner_config")
+    blk_param = next((p_ for p_ in fi.params if p_ == "block_list"), None)
     shapes = [((3, 4), (5,), (2, 2, 2)), ((7,),), ((2, 3), (4, 5)), ((), (6,)), ((2, 3, 4, 5),)]
+    from ..guards import MISSING, repo_pure_calls
+
+    class Blk:
+        def __init__(self, dims):
+            self._d = tuple(dims)
+
+        def size(self):
+            return self._d
+
+        shape = property(lambda self: self._d)
+
+        def dim(self):
+            return len(self._d)
+
+    def hook(it, c):
+        f = c.func
+        if isinstance(f, ast.Attribute) and f.attr in ("size", "dim") and not c.args:
+            b = it.ev(f.value)
+            if isinstance(b, Blk):
+                return getattr(b, f.attr)()
+        return MISSING
+
+    # the constructor's own statements up to the selector are run one by one; those outside the sub-language (super().__init__,
+    # allocations) are skipped — the selector may be written as one expression or built in a loop
+    stmts = []
+    for st in fi.node.body:
+        stmts.append(st)
+        if any(st is d_ or any(x is d_ for x in ast.walk(st)) for d_ in defs):
+            break
     bad, n = [], 0
-    try:
-        for dims_list, ignored in itertools.product(shapes, ([], [0], [1], [2], [0, 1], [0, 2], [3], [1, 3])):
-            n += 1
-            want = tuple(tuple(d not in ignored for d in range(len(dims))) for dims in dims_list)
-            env = {"self": SimpleNamespace(_dims_list=tuple(dims_list), _preconditioner_config=SimpleNamespace(ignored_dims=list(ignored))), cfg_param: SimpleNamespace(ignored_dims=list(ignored))}
+    for dims_list, ignored in itertools.product(shapes, ([], [0], [1], [2], [0, 1], [0, 2], [3], [1, 3])):
+        n += 1
+        want = tuple(tuple(d not in ignored for d in range(len(dims))) for dims in dims_list)
+        cfg = SimpleNamespace(ignored_dims=list(ignored))
+        env = {"self": SimpleNamespace(_dims_list=tuple(dims_list), _preconditioner_config=cfg), cfg_param: cfg}
+        if blk_param:
+            env[blk_param] = tuple(Blk(d) for d in dims_list)
+        it = Interp(env, call_hook=repo_pure_calls(repo, fi.module, inner=hook))
+        for st in stmts:
             try:
-                got = Interp(env).ev(expr)
-                got = tuple(tuple(x) for x in got)
-            except Raised as r_:
-                got = f"raise {r_.exc_name}"
-            if got != want and len(bad) < 2:
-                bad.append((dims_list, ignored, got, want))
-    except Unsupported as u:
-        raise AnalysisError(f"{rule}: selector expression outside the interpreted sub-language: {u}") from u
+                it.stmt(st, lambda e: ast.unparse(e))
+            except (Unsupported, Raised, AttributeError, TypeError, KeyError, IndexError):
+                continue
+        got = it.env.get("preconditioned_dims_selector_list", "<not computed>")
+        try:
+            got = tuple(tuple(x) for x in got)
+        except TypeError:
+            pass
+        if got == "<not computed>":
+            raise AnalysisError(f"{rule}: the selector of {fi.qual} could not be computed in the interpreted sub-language")
+        if got != want and len(bad) < 2:
+            bad.append((dims_list, ignored, got, want))
     rep.ob(rule, "ignored-dims-selector", not bad, fi.loc(defs[0]), f"{n} (block shapes, ignored_dims) cases: selector[d] == (d not in ignored_dims) for every block" + (f"; for shapes {bad[0][0]} and ignored_dims {bad[0][1]}: code gives {bad[0][2]}, documented {bad[0][3]}" if bad else ""), sample=True)
 
 
